@@ -1,6 +1,7 @@
 package parser
 
 import (
+	"errors"
 	"fmt"
 	"math/big"
 	"strconv"
@@ -62,10 +63,28 @@ func Parse(input string) ParseResult {
 
 	parsed := parseProgram(parser.Program())
 
+	reportOutOfRangeNumbers(stream, listener)
+
 	return ParseResult{
 		Source: input,
 		Value:  parsed,
 		Errors: listener.Errors,
+	}
+}
+
+// number literals are stored as int: the ones that do not fit are reported
+// as errors (they used to crash the parser)
+func reportOutOfRangeNumbers(stream *antlr.CommonTokenStream, listener *ErrorListener) {
+	for _, tk := range stream.GetAllTokens() {
+		if tk.GetTokenType() != parser.NumscriptLexerNUMBER {
+			continue
+		}
+		if _, err := strconv.Atoi(tk.GetText()); err != nil {
+			listener.Errors = append(listener.Errors, ParserError{
+				Range: tokenToRange(tk),
+				Msg:   "number literal out of range: " + tk.GetText(),
+			})
+		}
 	}
 }
 
@@ -586,6 +605,10 @@ func parseNumberLiteral(numNode antlr.TerminalNode) *NumberLiteral {
 	amtStr := numNode.GetText()
 
 	amt, err := strconv.Atoi(amtStr)
+	if errors.Is(err, strconv.ErrRange) {
+		// reported as an error by Parse()
+		amt, err = 0, nil
+	}
 	if err != nil {
 		panic("Invalid number: " + amtStr)
 	}
